@@ -85,6 +85,8 @@ def resolve(discs):
 def build(variants, repr, discs, cfg, laws=True):
     """variants: list of (style, [payload codes]) with style u/t/n"""
     traits, derives = CFG[cfg]
+    if repr and 'C' in repr.replace(' ', '').split(',') and int_of(repr) and all(st == 'u' for st, _ in variants):
+        return None     # rustc refuses #[repr(C, inttype)] on a fieldless enum (deny-by-default lint conflicting_repr_hints)
     vals = resolve(discs)
     lines = ['#[derive(Educe, Debug, Clone, %s)]\n' % derives]
     if repr:
@@ -240,7 +242,7 @@ def generate(tier):
             cases.append(build(vs, repr, discs, cfgs[k % 4], laws=False))
     seen, out = set(), []
     for c in cases:
-        if c.key not in seen:
+        if c is not None and c.key not in seen:
             seen.add(c.key)
             out.append(c)
     return out
